@@ -51,8 +51,19 @@ class _Base(Contract):
     def rs(self):
         return [(0, 1), (0, 2), (1, 2), (1, 3), (2, 3)]
 
+    def all_instances(self, tier):
+        # also on two-level steps whose coarse level holds arbitrary OTHER step sizes / proposals (decisions read the finest level)
+        out = list(self.instances(tier))
+        return out + [dict(i, nlevels=2) for i in out if i['size'] <= 2 and 'nlevels' not in i]
+
     def get(self, mk, inst):
-        st = mpi_setup(mk, dict(rank=inst['rank'], size=inst['size']))
+        st = mpi_setup(mk, dict(rank=inst['rank'], size=inst['size'], nlevels=inst.get('nlevels', 1)))
+        for l, Lc in enumerate(st.S.levels[1:], start=1):
+            Lc.params.dt = mk.real(f'coarse{l}.dt')
+            mk.assume(Lc.params.dt > 0, 'dt>0')
+            Lc.status.dt_new = mk.real(f'coarse{l}.dt_new')
+            mk.assume(Lc.status.dt_new > 0, 'proposal>0')
+            Lc.params.dt_initial = mk.real(f'coarse{l}.dt_initial')
         st.inst = inst
         B = next(c for c in st.real_ccs if type(c).__name__ == 'BasicRestartingMPI')
         st.B = B
